@@ -47,6 +47,8 @@ type ctxObs struct {
 	tokLit string
 	// bracketed: a plugin's own context value is on the stack; the innermost answer is the plugin's business
 	bracketed bool
+	// bracketFunc: one of the plugin's open brackets pushed FunctionContext: "inside a function" holds there
+	bracketFunc bool
 }
 
 type tokObs struct {
@@ -212,6 +214,7 @@ type installation struct {
 	muted         bool // parties pass through without recording or acting (nested sibling parse)
 	inStmtReenter bool
 	bracketDepth  int
+	bracketFunc   int // how many of the open plugin brackets pushed FunctionContext
 }
 
 var oddPrefixes = []string{"\xEF\xBB\xBF", "\xEF\xBB\xBF// c\n", "\uFEFF\n", "#!/usr/bin/env xjs\n", "\x00", "\u200b", "\u00a0", "\r\n", "\t\v\f ", "/**/", "<!-- x\n", "\xFF\xFE", "\u2028"}
@@ -431,7 +434,7 @@ func (x *installation) add(k byte, via bool) {
 				}
 				r.add('S', idx, 'e', ord, false)
 				if idx == 0 && (!in.sparse || ch.Bool(1, 4)) {
-					r.ctxs = append(r.ctxs, ctxObs{kind: 'S', ord: ord, inFunc: p.IsInFunction(), ctx: p.CurrentContext(), tokLit: entry.Literal, bracketed: x.bracketDepth > 0})
+					r.ctxs = append(r.ctxs, ctxObs{kind: 'S', ord: ord, inFunc: p.IsInFunction(), ctx: p.CurrentContext(), tokLit: entry.Literal, bracketed: x.bracketDepth > 0, bracketFunc: x.bracketFunc > 0})
 					if in.sparse {
 						st.Inc("probe.context_asked_only_now_and_then")
 					}
@@ -439,7 +442,14 @@ func (x *installation) add(k byte, via bool) {
 				if in.bracket && idx == x.si-1 && ch.Bool(1, 8) {
 					// innermost party: the step runs inside the plugin's own context value
 					st.Inc("probe.step_bracketed_by_plugin_context_value")
-					p.PushContext(parser.ContextType(7))
+					if ch.Bool(1, 2) {
+						p.PushContext(parser.ContextType(7))
+					} else {
+						// a plugin scope that counts as a function (a lambda with an expression body, say)
+						p.PushContext(parser.FunctionContext)
+						x.bracketFunc++
+						defer func() { x.bracketFunc-- }()
+					}
 					x.bracketDepth++
 					defer func() {
 						x.bracketDepth--
@@ -513,7 +523,7 @@ func (x *installation) add(k byte, via bool) {
 				r.add('E', idx, 'e', ord, re)
 				if idx == 0 {
 					if !in.sparse || ch.Bool(1, 6) {
-						r.ctxs = append(r.ctxs, ctxObs{kind: 'E', ord: ord, inFunc: p.IsInFunction(), ctx: p.CurrentContext(), tokLit: entry.Literal, bracketed: x.bracketDepth > 0})
+						r.ctxs = append(r.ctxs, ctxObs{kind: 'E', ord: ord, inFunc: p.IsInFunction(), ctx: p.CurrentContext(), tokLit: entry.Literal, bracketed: x.bracketDepth > 0, bracketFunc: x.bracketFunc > 0})
 					}
 				}
 				x.exprDepth++
@@ -530,7 +540,15 @@ func (x *installation) add(k byte, via bool) {
 						st.Inc("probe.reentrant_party_before_passthrough_party")
 					}
 					var left ast.Expression
-					if in.specific && ch.Bool(1, 2) {
+					if in.specific && (p.CurrentToken.Type == token.MINUS || p.CurrentToken.Type == token.NOT) && ch.Bool(1, 2) {
+						// the plugin builds the unary node itself and asks for the operand through the public,
+						// precedence-parametrised entry point: that operand is a parse step like any other
+						st.Inc("probe.operand_requested_through_ParseExpressionWithPrecedence")
+						u := &ast.UnaryExpression{Token: p.CurrentToken, Operator: p.CurrentToken.Literal}
+						p.NextToken()
+						u.Right = p.ParseExpressionWithPrecedence(parser.UNARY)
+						left = u
+					} else if in.specific && ch.Bool(1, 2) {
 						st.Inc("probe.reentrant_via_specific_public_parse_function")
 						if p.CurrentToken.Type == token.FUNCTION {
 							st.Inc("probe.reentrant_via_ParseFunctionExpression")
@@ -883,7 +901,116 @@ func genCfg(ch *kernel.Chooser, forC16, big bool) gen.Config {
 	return cfg
 }
 
+var substLevels = map[string]int{"||": parser.LOGICAL_OR, "&&": parser.LOGICAL_AND, "==": parser.EQUALITY, "!=": parser.EQUALITY, "<": parser.COMPARISON, ">": parser.COMPARISON,
+	"<=": parser.COMPARISON, ">=": parser.COMPARISON, "+": parser.SUM, "-": parser.SUM, "*": parser.PRODUCT, "/": parser.PRODUCT, "%": parser.PRODUCT}
+
+type opStandIn struct {
+	Tok  token.Token
+	L, R ast.Expression
+	Lvl  int
+}
+
+func (n *opStandIn) WriteTo(cw *ast.CodeWriter) {
+	n.L.WriteTo(cw)
+	cw.WriteString(" " + n.Tok.Literal + " ")
+	n.R.WriteTo(cw)
+}
+func (n *opStandIn) Precedence() int { return n.Lvl }
+
+// operatorScenario: one built-in binary operator of a valid program is replaced by a registered infix
+// operator of the same level. Interceptors must see exactly the same parse steps (statements and
+// expressions, by token ordinal) as in the original program: the operands of a registered operator are
+// parse steps like any others.
+func (e *Engine) operatorScenario(ch *kernel.Chooser, st *kernel.Stats) kernel.RunResult {
+	res := kernel.RunResult{Evals: 1}
+	p := gen.Generate(ch, genCfg(ch, false, false))
+	var cands []int
+	for i, t := range p.Toks {
+		if t.Role == "bin.op" {
+			if _, ok := substLevels[t.Text]; ok {
+				cands = append(cands, i)
+			}
+		}
+	}
+	if len(cands) == 0 {
+		return res
+	}
+	ti := cands[ch.Choose(len(cands))]
+	tk := p.Toks[ti]
+	level := substLevels[tk.Text]
+	const word = "OPz"
+	text2 := p.Text[:tk.Start] + " " + word + " " + p.Text[tk.End:]
+	k := 1 + ch.Choose(3)
+	steps := func(text string, withOp bool) (ords []int, errs string, ok bool) {
+		toks, pan := xutil.LexAllToEnd(lexer.NewBuilder(), text)
+		if pan != nil {
+			return nil, "", false
+		}
+		posIndex := map[token.Position]int{}
+		for i, t := range toks {
+			if _, dup := posIndex[t.Start]; !dup {
+				posIndex[t.Start] = i
+			}
+		}
+		lb := lexer.NewBuilder()
+		pb := parser.NewBuilder(lb)
+		if withOp {
+			id := lb.RegisterTokenType(word)
+			lb.UseTokenInterceptor(func(l *lexer.Lexer, next func() token.Token) token.Token {
+				t := next()
+				if t.Type == token.IDENT && t.Literal == word {
+					t.Type = id
+				}
+				return t
+			})
+			if err := pb.RegisterInfixOperator(id, level, func(tok token.Token, left ast.Expression, right func() ast.Expression) ast.Expression {
+				return &opStandIn{Tok: tok, L: left, R: right(), Lvl: level}
+			}); err != nil {
+				return nil, "", false
+			}
+		}
+		for i := 0; i < k; i++ {
+			first := i == 0
+			pb.UseExpressionInterceptor(func(ps *parser.Parser, next func() ast.Expression) ast.Expression {
+				if first {
+					ords = append(ords, posIndex[ps.CurrentToken.Start])
+				}
+				return next()
+			})
+			pb.UseStatementInterceptor(func(ps *parser.Parser, next func() ast.Statement) ast.Statement {
+				if first {
+					ords = append(ords, -1-posIndex[ps.CurrentToken.Start])
+				}
+				return next()
+			})
+		}
+		o := xutil.Parse(pb, text)
+		if o.Panic != nil {
+			return nil, "", false
+		}
+		return ords, xutil.ErrorsString(o.Errors), true
+	}
+	a, aerr, ok1 := steps(p.Text, false)
+	b, berr, ok2 := steps(text2, true)
+	if !ok1 || !ok2 || aerr != "" {
+		return res
+	}
+	st.Inc("probe.registered_operator_stands_in_for_a_builtin_one")
+	res.Nontrivial = true
+	res.Fingerprint = kernel.Mix(kernel.Hash64(text2), uint64(level))
+	res.Steps = int64(len(a) + len(b))
+	if berr != "" || !equalInts(a, b) {
+		res.Violations = append(res.Violations, kernel.Violation{Property: "C04", Kind: "steps", Signature: "steps|operands-of-a-registered-operator",
+			Detail:       fmt.Sprintf("with `%s` (token #%d) replaced by an infix operator registered at the same level (%d), the interceptors saw steps %v (errors %q); in the original program they saw %v\noriginal: %q\nwith registered operator: %q", tk.Text, ti, level, b, berr, a, p.Text, text2),
+			Materialised: map[string]any{"original": p.Text, "with_registered_operator": text2, "level": level}})
+	}
+	return res
+}
+
 func (e *Engine) Run(prop string, ch *kernel.Chooser, st *kernel.Stats) kernel.RunResult {
+	if prop == "C04" && ch.Bool(1, 12) {
+		return e.operatorScenario(ch, st)
+	}
 	forC16 := prop == "C16"
 	p := gen.Generate(ch, genCfg(ch, forC16, e.tier == "thorough"))
 	res := kernel.RunResult{Evals: 1}
@@ -1020,6 +1147,7 @@ func (e *Engine) Run(prop string, ch *kernel.Chooser, st *kernel.Stats) kernel.R
 			st.Inc("probe.builder_reused_for_another_parser")
 		}
 		inst.bailed, inst.stmtDepth, inst.exprDepth, inst.inStmtReenter, inst.bracketDepth = false, 0, 0, false, 0
+		inst.bracketFunc = 0
 		lexCalls := hooks.Count(hooks.LexerNextToken)
 		out := observe(inst.pb, text, rec)
 		lexCalls = hooks.Count(hooks.LexerNextToken) - lexCalls
@@ -1251,8 +1379,9 @@ func (e *Engine) Run(prop string, ch *kernel.Chooser, st *kernel.Stats) kernel.R
 						if gt.CtxDepth >= 40 {
 							st.Inc("probe.context_stack_depth_ge40")
 						}
-						if c.inFunc != gt.InFunc {
-							add("C16", "in-function", fmt.Sprintf("in-function|want=%v|%s", gt.InFunc, kindName),
+						wantIn := gt.InFunc || c.bracketFunc
+						if c.inFunc != wantIn {
+							add("C16", "in-function", fmt.Sprintf("in-function|want=%v|%s", wantIn, kindName),
 								fmt.Sprintf("%s interceptor at token #%d %q (%d:%d): IsInFunction()=%v but the token is%s inside a function body (nesting depth %d)", kindName, c.ord, gt.Text, gt.Line, gt.Col, c.inFunc, map[bool]string{true: "", false: " not"}[gt.InFunc], gt.CtxDepth))
 						}
 						if c.bracketed {
@@ -1425,7 +1554,7 @@ func init() {
 			"sampling over programs, installations and action schedules; not exhaustive",
 		},
 		RequiredProbes: map[string][]string{
-			"C04": {"probe.reentrant_invocations", "probe.reentrant_at_depth_ge3", "probe.reentrant_party_before_passthrough_party", "probe.installed_via_plugin", "probe.malformed_with_errors_under_many_interceptors", "probe.eight_of_each_kind", "probe.builder_reused_for_another_parser", "probe.party_installed_between_two_builds", "probe.nested_parser_run_inside_interceptor", "probe.reentrant_via_specific_public_parse_function", "probe.plugin_uses_captured_builder", "probe.plugin_installs_nested_plugin", "fault.odd_prefix", "probe.statement_step_requested_through_public_ParseStatement"},
+			"C04": {"probe.reentrant_invocations", "probe.reentrant_at_depth_ge3", "probe.reentrant_party_before_passthrough_party", "probe.installed_via_plugin", "probe.malformed_with_errors_under_many_interceptors", "probe.eight_of_each_kind", "probe.builder_reused_for_another_parser", "probe.party_installed_between_two_builds", "probe.nested_parser_run_inside_interceptor", "probe.reentrant_via_specific_public_parse_function", "probe.plugin_uses_captured_builder", "probe.plugin_installs_nested_plugin", "fault.odd_prefix", "probe.statement_step_requested_through_public_ParseStatement", "probe.registered_operator_stands_in_for_a_builtin_one", "probe.operand_requested_through_ParseExpressionWithPrecedence"},
 			"C16": {"probe.depth_ge5", "probe.function_body_direct", "probe.funcexpr_in_call_argument", "probe.funcexpr_in_object_value", "probe.funcexpr_in_condition", "probe.final_state_checked_on_erroring_input", "probe.nested_parser_run_inside_interceptor", "probe.builder_reused_for_another_parser", "probe.bailout_recovered_by_outer_interceptor", "probe.bailout_thrown_inside_function_body", "probe.reentrant_via_ParseFunctionExpression", "probe.context_stack_depth_ge40", "probe.public_ParseStatement_inside_function_body", "probe.nested_parser_built_from_the_same_builder"},
 		},
 	})
